@@ -32,6 +32,16 @@ class UnsupportedAttribute(Unsupported, AttributeError):
     """A library attribute the model does not provide (hasattr() sees it as absent; the path is poisoned)."""
 
 
+def missing_attr(real_cls, name, label):
+    """__getattr__ of a model class: an attribute the REAL class has but the model lacks makes the path inconclusive (it must not
+    look like an AttributeError of the code under analysis); one the real class lacks too is an ordinary AttributeError"""
+    if name.startswith("__") and name.endswith("__"):
+        raise AttributeError(name)
+    if hasattr(real_cls, name):
+        raise UnsupportedAttribute(f"{label}.{name}")
+    raise AttributeError(f"{label!r} object has no attribute {name!r}")
+
+
 # ----------------------------------------------------------------------------
 # boolean term helpers with constant folding
 # ----------------------------------------------------------------------------
